@@ -155,6 +155,16 @@ def deep_count(stmts):
     return n
 
 
+def include_entries(stmts):
+    n = 0
+    for s in stmts:
+        if s and s[0] == 'include':
+            n += len(s[1])
+        elif s and s[0] == 'function':
+            n += include_entries(s[5])
+    return n
+
+
 # ====================================================================== reference: block simulator over ROLES
 # role: ('plain',) ('include',) ('open', kind) ('close', kind) ('elif',) ('else',) ('func',) ('endfunc',)
 #       ('break',) ('continue',) ('xfault', where, error, column)    where in plain/if/while/for/elif
@@ -563,7 +573,10 @@ def base_entries(r, big=True):
         e = extra_line(r, r.randint(0, 99))
         ents.insert(i, e)
         if e[1] == ('include',) and r.random() < 0.6:
-            ents.insert(i, extra_line_include(r))
+            # (a run of include lines may name the SAME file twice: it is then included twice)
+            ents.insert(i, extra_line_include(r) if r.random() < 0.6 else list(e))
+            if r.random() < 0.3:
+                ents.insert(i, list(e))
     return ents
 
 
@@ -1364,6 +1377,12 @@ def evaluate(cases, results):
                         fail(cls, case, {'error': la[1], 'line_number': None if at[0] is None else start + at[0], 'line': at[1]}, {'ok': n})
                     elif la[1] != n:
                         fail('dropped-line', case, {'statements': la[1], 'logical lines': len(logical)}, {'statements': n, 'ok': stmts})
+                    else:
+                        # adjacent include lines merge into ONE statement, but every include line is still one entry of it
+                        want_inc = sum(1 for _, t in logical if classify(t) == ('include',))
+                        got_inc = include_entries(stmts)
+                        if want_inc != got_inc:
+                            fail('dropped-line', case, {'include lines': want_inc}, {'include entries': got_inc, 'ok': stmts})
 
         # ---- 6. metamorphic shift
         meta = case.get('meta')
